@@ -308,3 +308,31 @@ func VerifC15_BencodeWrappers() {
 	}
 	verifReach("end")
 }
+
+// Encoding must not depend on (or disturb) how the caller laid out its slices: addresses whose IP
+// slices are windows into one shared buffer (spare capacity behind each) encode to the same bytes as
+// freshly allocated ones, decode back to the same contacts, and the caller's buffer is left alone.
+func VerifC15_EncodeSharedBuffer() {
+	buf := verifBytes(12)
+	orig := append([]byte(nil), buf...)
+	p0, p1 := int(verifNondetU16()), int(verifNondetU16())
+	addrs := CompactIPv4NodeAddrs{{IP: net.IP(buf[0:4]), Port: p0}, {IP: net.IP(buf[4:8]), Port: p1}}
+	enc, err := addrs.MarshalBinary()
+	verifAssert(err == nil && len(enc) == 12, "C15 encode: two IPv4 addresses encode to 12 bytes")
+	verifAssert(verifSameBytes(buf, orig), "C15 encode: encoding does not write into the caller's buffers")
+	var dec CompactIPv4NodeAddrs
+	verifAssert(dec.UnmarshalBinary(enc) == nil && len(dec) == 2, "C15 encode: the encoding decodes")
+	if len(dec) == 2 {
+		verifAssert(verifSameBytes(dec[0].IP, orig[0:4]) && dec[0].Port == p0, "C15 round trip: first address")
+		verifAssert(verifSameBytes(dec[1].IP, orig[4:8]) && dec[1].Port == p1, "C15 round trip: second address")
+	}
+	enc2, _ := addrs.MarshalBinary()
+	verifAssert(verifSameBytes(enc, enc2), "C15 encode: encoding the same value twice gives the same bytes")
+	// single NodeAddr with spare capacity
+	na := NodeAddr{IP: net.IP(buf[8:12:12]), Port: p0}
+	nb := NodeAddr{IP: net.IP(orig[8:10]), Port: p1}
+	_ = nb
+	b1, _ := na.MarshalBinary()
+	verifAssert(len(b1) == 6 && verifSameBytes(b1[:4], orig[8:12]), "C15 encode: NodeAddr bytes")
+	verifReach("end")
+}
